@@ -32,7 +32,7 @@ func (b *verifBrokenBody) Read(p []byte) (int, error) {
 func (b *verifBrokenBody) Close() error { return nil }
 
 func (t *verifFakeRT) RoundTrip(req *http.Request) (*http.Response, error) {
-	verifProxyHits[t.name]++
+	verifHit(t.name)
 	kind, status := verifNextOutcome()
 	h := http.Header{"Content-Type": []string{"text/plain"}}
 	switch kind {
